@@ -1,6 +1,14 @@
 #!/bin/bash
-# C26 thorough additionally uses an AddressSanitizer build of its worker (nightly).
-# A failure here is not fatal: the guard-page monitor is the deciding oracle in both tiers.
+# C26 extra builds. Failures here are not fatal: the guard-page monitor is the deciding
+# oracle in both tiers; a missing lane is recorded in the evidence (asan_build_used, miri_lane).
+HERE="$(cd "$(dirname "${BASH_SOURCE[0]}")/.." && pwd)"
+# 1. Miri lane (both tiers): compile harness/vmiri for the interpreter outside the run's watchdog.
+#    "warm" makes the program exit before doing anything.
+if [ -z "${VERIF_NO_MIRI:-}" ]; then
+  ( cd "$HERE" && env -u RUSTFLAGS -u CARGO_TARGET_DIR -u RUSTUP_TOOLCHAIN MIRIFLAGS="-Zmiri-disable-isolation -Zmiri-ignore-leaks" \
+      timeout 2400 cargo +nightly miri run --offline -q -p vmiri -- /nonexistent 0 warm ) || echo "miri build unavailable; the lane will report inconclusive"
+fi
+# 2. thorough additionally uses an AddressSanitizer build of the worker (nightly).
 if [ "${1:-quick}" = "thorough" ]; then
   timeout 2400 "${VERIF_ROOT:-/verif}/tools/build_asan.sh" || echo "asan build unavailable; continuing with the guard-page monitor only"
 fi
